@@ -313,3 +313,8 @@ func Run(f func()) (outcome string) {
 	}
 	return "not-reproduced"
 }
+
+// StubReturn: under the engine, calls of the named function return first as
+// their first result and zero values for the others (natively a no-op: the
+// real function runs).
+func StubReturn(name string, first []byte) {}
